@@ -240,6 +240,32 @@ def run(ctx):
                     fi.loc(m.node),
                     path=path(fi),
                 )
+            # local alias of a rule attribute mutated in place: x = self.a ; x += [...] / x.append(..)
+            binds = {}
+            for n in walk_function(fi.node):
+                if isinstance(n, ast.Assign) and len(n.targets) == 1 and isinstance(n.targets[0], ast.Name):
+                    binds.setdefault(n.targets[0].id, []).append(n.value)
+            for m in mutation_sites(fi):
+                if m.root is None or m.root == "self" or m.path:
+                    continue
+                rmw = (m.kind == "method") or (m.kind == "item-store") or (isinstance(m.node, ast.AugAssign))
+                if not rmw:
+                    continue
+                vals = binds.get(m.root, [])
+                al = [v for v in vals if isinstance(v, ast.Attribute) and isinstance(v.value, ast.Name) and v.value.id == "self"]
+                if not al or len(al) != len(vals):
+                    continue  # also bound to something else (a fresh copy on another branch): not decided here
+                attr = al[0].attr
+                if attr in ("violations",):
+                    continue
+                n_self += 1
+                r.fail(
+                    "C06.self",
+                    m.key,
+                    "analysis mutates `%s` in place, a local alias of rule attribute `%s` (%s): what one analysis adds is still there in the next one, so the reported violations depend on what was analysed before" % (m.root, attr, m.method or m.kind),
+                    fi.loc(m.node),
+                    path=path(fi),
+                )
         # ------------------------------------------------------ determinism
         for n in walk_function(fi.node):
             if isinstance(n, ast.Call):
@@ -323,6 +349,8 @@ def _driver(r, p):
 
 
 VARIANTS = [
+    Variant("C06", "analysis extends a rule attribute through a local alias", "fire",
+            [("vsg/rules/blank_line_below_line_ending_with_token.py", "lAllowTokens = self.lAllowTokens + [token.pragma.pragma]", "lAllowTokens = self.lAllowTokens\n            lAllowTokens += [token.pragma.pragma]")], rule="C06.self"),
     Variant("C06", "case rule normalises token value during analysis", "fire",
             [("vsg/rules/case_utils.py", "def get_token_value(oToi, iIndex):\n    return oToi.get_tokens()[iIndex].get_value()", "def get_token_value(oToi, iIndex):\n    oToken = oToi.get_tokens()[iIndex]\n    oToken.set_value(oToken.get_value().strip())\n    return oToken.get_value()")],
             rule="C06.tokens", key="case_utils"),
